@@ -465,4 +465,95 @@ def r6_dispatch_namespace(a, tier):
     return rep
 
 
-RULES = [r1_child_discovery, r2_traversals, r3_attribute_names, r4_declared_bases, r5_construction, r6_dispatch_namespace]
+def r7_generated_model_classes(a, tier):
+    import textwrap
+
+    from ..minieval import Obj
+    from ..modelinterp import Bound
+    rep = RuleReport(
+        'C07.R7',
+        'the generated model module declares the same classes the builder synthesizes: _base_class_specs, interpreted, turns a rule typed '
+        '`D::B1::B2` into the chain D(B1), B1(B2), B2(ModelBase) (the order the builder uses: first name = the class, each following name its '
+        'base) and a rule without a string type into nothing; _gen_rule_class / _gen_base_class, interpreted with the printer recorded, emit '
+        'a @tatsu.dataclass class with that base whose fields are ALL names the rule defines (single and list), each defaulting to None '
+        '(a mutable default would be shared between nodes)',
+        floor=5,
+    )
+    GEN = 'tatsu.ngcodegen.ngmodel_gen.PythonModelGenerator'
+    if GEN not in a.p.classes:
+        raise AnalysisError('PythonModelGenerator not found')
+    specs_fn = a.ct.lookup(GEN, '_base_class_specs')
+
+    def spec_hook(*args):
+        return Obj(class_name=args[0], base=args[1])
+
+    def interp(out=None):
+        return ModelInterp(a, {'safe_name': Hook(lambda s_, *x: s_ + '_' if s_ in ('class', 'def', 'items') else s_), 'BaseClassSpec': Hook(spec_hook)})
+    me = Stub(GEN, basetype=object, name='M')
+    for params, want in ((('D::B1::B2',), [('D', 'B1'), ('B1', 'B2'), ('B2', 'ModelBase')]), (('Solo',), [('Solo', 'ModelBase')]), ((), []), ((7,), []), ((None,), [])):
+        rule = Stub('tatsu.peg.base.Rule', name='r', params=params)
+        try:
+            got = interp().call_bound(Bound(me, specs_fn), [rule], {})
+            got = [(x.class_name, x.base) for x in got]
+        except Unsupported as e:
+            if ('method call' in str(e) or 'attribute' in str(e)) and params and not isinstance(params[0], str):
+                got = f'raises (a str method on {type(params[0]).__name__}: {e})'  # the interpreted code applies a str operation to a non-str parameter
+            else:
+                raise AnalysisError(f'C07.R7: cannot interpret _base_class_specs: {e}') from e
+        except Exception as e:  # noqa: BLE001
+            got = f'raises {type(e).__name__}'
+        ok = got == want
+        rep.add({'rule_type': list(map(repr, params)), 'class_chain': got, 'want': want, 'ok': ok})
+        if not ok:
+            rep.fail(specs_fn.qualname, f'model-specs:{params!r}', f'a rule typed {params!r} gives the class chain {got}; required {want}', specs_fn.loc)
+    out: list = []
+    me = Stub(GEN, basetype=object, name='M', print=Hook(lambda *x, **k: out.append(' '.join(str(y) for y in x))), indent=Hook(lambda *x, **k: _NullCM()))
+    rule = Stub('tatsu.peg.base.Rule', name='r', params=('D::B1',), defines_single=['a', 'class'], defines_list=['b'])
+    grc = a.ct.lookup(GEN, '_gen_rule_class')
+    gbc = a.ct.lookup(GEN, '_gen_base_class')
+    try:
+        interp().call_bound(Bound(me, grc), [rule, [Obj(class_name='D', base='B1')]], {})
+        interp().call_bound(Bound(me, gbc), ['B1', 'ModelBase'], {})
+    except Unsupported as e:
+        raise AnalysisError(f'C07.R7: cannot interpret the class emitters: {e}') from e
+    text = textwrap.dedent('\n'.join(out))
+    # the recorded lines have no indentation (indent() is a stand-in): rebuild it for the parser
+    lines = []
+    for ln in '\n'.join(out).splitlines():
+        st = ln.strip()
+        lines.append(st if st.startswith(('@', 'class ')) or not st else '    ' + st)
+    try:
+        tree = ast.parse('\n'.join(lines))
+        classes = {n.name: n for n in tree.body if isinstance(n, ast.ClassDef)}
+    except SyntaxError as e:
+        classes = {}
+        rep.fail(grc.qualname, 'model-class:syntax', f'the emitted class text does not parse: {e}: {lines}', grc.loc)
+    d = classes.get('D')
+    if d is not None:
+        bases = [ast.unparse(b) for b in d.bases]
+        fields = {n.target.id: (ast.unparse(n.value) if n.value is not None else None) for n in d.body if isinstance(n, ast.AnnAssign) and isinstance(n.target, ast.Name)}
+        decos = [ast.unparse(x) for x in d.decorator_list]
+        ok = bases == ['B1'] and fields == {'a': 'None', 'b': 'None', 'class_': 'None'} and any('dataclass' in x for x in decos)
+        rep.add({'emitted_class': 'D', 'bases': bases, 'fields': fields, 'decorators': decos, 'ok': ok})
+        if not ok:
+            rep.fail(grc.qualname, 'model-class:D', f'for a rule typed D::B1 defining a, class (single) and b (list) the generator emits class D with bases {bases}, fields {fields}, '
+                     f'decorators {decos}; required base B1, the fields a, b, class_ all defaulting to None, a dataclass decorator', grc.loc)
+    elif classes or not rep.findings:
+        rep.fail(grc.qualname, 'model-class:missing', f'no class D in the emitted text {lines}', grc.loc)
+    b1 = classes.get('B1')
+    ok = b1 is not None and [ast.unparse(b) for b in b1.bases] == ['ModelBase']
+    rep.add({'emitted_class': 'B1', 'bases': [ast.unparse(b) for b in b1.bases] if b1 is not None else None, 'ok': ok})
+    if not ok:
+        rep.fail(gbc.qualname, 'model-class:B1', 'the intermediate base class B1 is not emitted as `class B1(ModelBase)`', gbc.loc)
+    return rep
+
+
+class _NullCM:
+    def __enter__(self):
+        return self
+
+    def __exit__(self, *x):
+        return False
+
+
+RULES = [r1_child_discovery, r2_traversals, r3_attribute_names, r4_declared_bases, r5_construction, r6_dispatch_namespace, r7_generated_model_classes]
